@@ -278,6 +278,10 @@ lemma wfRel_typeDelete (tb t) : Inv anyErr WF (typeDelete tb t) := by
   sql_inv [wf_disch] [trivial]
 
 
+lemma wfRel_isoPropTypeOp (w) : Inv anyErr WF (isoPropTypeOp w) := by
+  unfold isoPropTypeOp
+  exact Inv.writeStmt _ (fun _ _ => trivial)
+
 lemma wfRel_isoToDb (i am aa) : Inv anyErr WF (isoToDb i am aa) := by
   unfold isoToDb
   repeat (first
@@ -325,6 +329,7 @@ theorem wf_opBody (op : Op) (db : Db) (mem : Mem) (n : Nat) (h : WF db)
   | typeToDb tb t u d o => exact key (wfRel_typeToDb tb t u d o) hok
   | typeDelete tb t => exact key (wfRel_typeDelete tb t) hok
   | isoToDb i am aa => exact key (wfRel_isoToDb i am aa) hok
+  | isoPropTypeOp w => exact key (wfRel_isoPropTypeOp w) hok
   | isoDelete id =>
     simp only [Op.body] at hok ⊢
     rw [exec_isoDelete_none] at hok ⊢
@@ -1475,6 +1480,7 @@ lemma intRel_isoToDb (i : IsoIn) (am aa : Bool) (h : ∀ p ∈ i.props, p.2 ≠ 
 /-- the operation hands no unbindable value (dict / list) to sqlite -/
 def bindable : Op → Prop
   | .isoToDb i _ _ => ∀ p ∈ i.props, p.2 ≠ .unsupported
+  | .isoPropTypeOp _ => False      -- the table these entry points address does not exist (finding S39, `isoPropType_other_error`)
   | _ => True
 
 /-- **A fault-free call either succeeds or is refused with a `ParsingError`** — never any other exception — as long as every
@@ -1498,6 +1504,7 @@ theorem refusal_is_parsingError (db : Db) (mem : Mem) (op : Op) (hb : bindable o
   | typeDelete tb t => exact key (intRel_typeDelete tb t)
   | isoToDb i am aa => exact key (intRel_isoToDb i am aa hb)
   | isoDelete id => exact key (intRel_isoDelete id)
+  | isoPropTypeOp w => exact hb.elim
 
 
 /-! ### non-vacuity: concrete instances (kernel evaluation of the executable model) -/
@@ -1554,5 +1561,16 @@ example : (runOp db0 mem0 (.isoToDb iso2 true true) (some (3, .operational))).ou
 theorem unbindable_value_other_error :
     (runOp db0 mem0 (.isoToDb { iso2 with props := [("x", .unsupported)] } true true) none).out = .otherError ∧
     (runOp db0 mem0 (.isoToDb { iso2 with props := [("x", .unsupported)] } true true) none).db = db0 := by decide +kernel
+
+/-- **finding S39** (`isoPropType_other_error`): the three entry points for *isotherm property types*
+(`isotherm_property_type_to_db`, `isotherm_property_types_from_db`, `isotherm_property_type_delete_db`) address a table the schema
+does not create; whatever the database content and the arguments, the call ends in an untranslated `OperationalError` (not a
+`ParsingError`), and — the part of the property that does hold — the file and the process-global lists are unchanged.  So the
+hypothesis `bindable` of `refusal_is_parsingError` cannot be dropped for these operations either. -/
+theorem isoPropType_other_error (db : Db) (mem : Mem) (w : String) :
+    (runOp db mem (.isoPropTypeOp w) none).out = .otherError ∧
+    (runOp db mem (.isoPropTypeOp w) none).db = db ∧
+    (runOp db mem (.isoPropTypeOp w) none).mem = mem := by
+  refine ⟨?_, ?_, ?_⟩ <;> rfl
 
 end PgVerif.C08
